@@ -367,7 +367,7 @@ func TestC11(t *testing.T) {
 			w.f.Exec(&oracletypes.MsgUpdateFeed{Creator: a.Bech, Name: fmt.Sprintf("feed%d", i), Data: `{"price":"1"}`})
 			w.f.Exec(newMsgRegisterName(a.Bech, fmt.Sprintf("owner%d.jkl", i), 1, "{}", true))
 			w.f.Exec(newMsgRegisterName(a.Bech, fmt.Sprintf("second%d.jkl", i), 1, "{}", false)) // a second name the primary pointer does not point at
-			if rapid.Bool().Draw(rt, "sameLabelUnderTheOtherTLD") { // ... and the same label under the other TLD, for longer, as the primary name
+			if rapid.Bool().Draw(rt, "sameLabelUnderTheOtherTLD") {                              // ... and the same label under the other TLD, for longer, as the primary name
 				w.f.Exec(newMsgRegisterName(a.Bech, fmt.Sprintf("owner%d.ibc", i), 3, "{}", false))
 				w.f.Exec(&rnstypes.MsgMakePrimary{Creator: a.Bech, Name: fmt.Sprintf("owner%d.ibc", i)})
 			}
